@@ -48,6 +48,26 @@ def run(tier):
         ]
         sim = ({"sigs": sig2, "threads": [[F(1, 100), ("L",), F(1, 90), ("L",)], [F(3, 100), ("L",), F(3, 60)]], "closer": 0},
                0, 800, 2500)
-    twr.run_campaign(ck, "C07", sc, exe, rng, mc_progs, graph_progs, 4000 if thorough else 300, sim=sim,
-                     liveness=True, flush_bias=True)
+    # several threads that all flush behind messages that fill the queue, under schedules where time jumps past the
+    # send / flush timeouts while a flush is being submitted
+    extra = []
+    for i in range(1500 if thorough else 250):
+        nt = rng.choice([2, 2, 3])
+        threads = []
+        sigs = {}
+        for k in range(1, nt + 1):
+            g = 2 * k - 1
+            sigs[g] = "u8"
+            sigs[g + 1] = "u8"
+            ops = []
+            for _ in range(rng.randint(1, 3)):
+                ops.append(F(g, rng.choice([60, 100, 150, 190])))
+                if rng.random() < 0.8:
+                    ops.append(("L",))
+            threads.append(ops)
+        cfg = {"seed": rng.randint(1, 2 ** 31 - 1), "steps": twr.STEP_BUDGET, "drop": rng.choice([0, 0, 1]), "pct": rng.choice([0, 2, 5]),
+               "span": rng.choice([30, 100, 400]), "tick": rng.choice([100, 300, 700]), "jump": rng.choice([300, 600, 1000])}
+        extra.append(({"sigs": sigs, "threads": threads, "closer": 0}, cfg))
+    twr.run_campaign(ck, "C07", sc, exe, rng, mc_progs, graph_progs, 8000 if thorough else 300, sim=sim,
+                     liveness=True, flush_bias=True, extra=extra)
     return ck.finish()
